@@ -183,6 +183,8 @@ private:
         bool self_seed{false};
         bool self_leecher{false};
     };
+    // Handshakes arrive on the accept thread and on the relay registration thread.
+    mutable std::mutex handshake_mutex_;
     std::unordered_map<std::string, HandshakeRecord> handshake_state_;
     std::vector<std::string> cleanup_notifications_;
     std::chrono::steady_clock::time_point last_cleanup_{};
